@@ -89,6 +89,8 @@ def gen_keys(rng, cluster, dup_ok=True):
 
 def reply_spec(rng, cluster, rq, honest):
     n = rq["name"]
+    if n == "apiversions":
+        return {"kind": "apiv", "ok": rng.random() < 0.6}
     if rng.random() < 0.03:
         return {"kind": "garbage"}
     if n == "metadata":
@@ -123,7 +125,8 @@ class Runner(object):
         self.cfg = cfg
         self.sim = Sim(timeout_ms=cfg["timeout_ms"], disconnect_on_timeout=cfg["dot"], hosts=[tuple(h) for h in cfg["hosts"]], shuffle_seed=cfg["shuffle_seed"],
                        hold_closes=cfg.get("hold", False), cancel_style=cfg.get("cancel_style", "plain"),
-                       bytes_groups=cfg.get("bytes_groups", False), discovery=cfg.get("discovery", False))
+                       bytes_groups=cfg.get("bytes_groups", False), discovery=cfg.get("discovery", False),
+                       no_jump=cfg.get("no_jump", False))
         self.ntag = 0
         self.closed = False
 
@@ -140,6 +143,13 @@ class Runner(object):
             ts = [(t, e, [tuple(p) for p in ps]) for t, e, ps in spec["topics"]]
             body = W.metadata_response(bs, [(t, e, [(pe, p, l, [], []) for pe, p, l in ps]) for t, e, ps in ts])
             return "meta %s %s" % (CC.fmt_brokers(bs), CC.fmt_topics(ts)), body
+        if n == "apiversions":
+            # version discovery (beyond-model stage): every API at version 0, or bytes the decoder rejects
+            if k == "apiv" and spec.get("ok"):
+                import struct
+                body = struct.pack(">hi", 0, 19) + b"".join(struct.pack(">hhh", a, 0, 0) for a in range(19))
+                return "simple 0", body
+            return "garbage", GARBAGE
         if n == "coord":
             if k != "coord":
                 spec = {"kind": "coord", "err": 15, "broker": [-1, "", 0]}
@@ -228,6 +238,15 @@ class Runner(object):
             return None
         if op == "advance":
             return s.advance(Fraction(cmd[1]))
+        if op == "arm_close":
+            # the Deferred of the NEXT operation started gets a callback that calls close() synchronously
+            s.close_armed = True
+            return None
+        if op == "sync_refuse":
+            # the next cmd[1] connection attempts of broker clients fail inside endpoint.connect()
+            s.sync_refuse_left = cmd[1]
+            s.xsteps.append({"line": "x-syncrefuse %d" % cmd[1], "seq": [], "envs": []})
+            return None
         raise ValueError(op)
 
     def dispose(self):
@@ -235,7 +254,18 @@ class Runner(object):
 
 
 def gen_cfg(rng, focus):
-    hosts = [["boot", 9092]] if rng.random() < 0.6 else [["ba", 9092], ["bb", 9093], ["bc", 9092]][: rng.randrange(2, 4)]
+    r = rng.random()
+    if r < 0.5:
+        hosts = [["boot", 9092]]
+    elif r < 0.78:
+        hosts = [["ba", 9092], ["bb", 9093], ["bc", 9092]][: rng.randrange(2, 4)]
+    else:
+        # the bootstrap list names cluster MEMBERS (broker i lives at h<i>:9092 until it is re-addressed), usually
+        # next to a host that is no broker: the known brokers are tried through their broker clients first and
+        # then every bootstrap host - members included - over a fresh connection
+        hosts = [["h%d" % i, 9092] for i in sorted(rng.sample(range(1, 8), rng.randrange(1, 4)))]
+        if rng.random() < 0.75:
+            hosts.append(["boot", 9092])
     return {
         "timeout_ms": rng.choice([500, 1000, 2500, 10000, 40000]),
         "dot": rng.random() < 0.5,
@@ -273,6 +303,10 @@ def generate(rng, focus="c07", nsteps=None, prefix=None, cfg=None):
     p_adv = {"c11": 0.25, "c20": 0.08}.get(focus, 0.08)
     p_cancel = 0.05
     after_close = 0
+    # black-hole phase (a fifth of the scenarios): from some step on the cluster mostly stays silent - requests are not
+    # answered, connection attempts are refused or left hanging, the clock runs to the next timer - so that a request
+    # times out on EVERY broker it is tried on, falls back to the bootstrap hosts and exhausts them too
+    dark_from = rng.randrange(2, max(3, nsteps - 4)) if rng.random() < 0.2 else None
     try:
         # bootstrap quickly in most scenarios so that broker-aware paths are reached
         for i in range(nsteps):
@@ -281,19 +315,39 @@ def generate(rng, focus="c07", nsteps=None, prefix=None, cfg=None):
             outst = run.outstanding()
             r = rng.random()
             cmd = None
+            beyond = cfg.get("beyond")  # beyond-model stages (harness/lib/client_beyond.py): "reentrant" | "discovery"
+            if beyond and sim.close_log_idx is not None:
+                run.closed = True  # close() was called from inside a callback
             if run.closed:
                 after_close += 1
                 if after_close > 8 and not sim.held():
                     break
                 if after_close > 30:
                     break
+            if dark_from is not None and i >= dark_from and not run.closed and rng.random() < 0.85:
+                gap = next_timer_gap(sim)
+                k = rng.random()
+                if pend and k < 0.55:
+                    cmd = ["refuse" if rng.random() < 0.8 else "accept", rng.randrange(len(pend))]
+                elif gap is not None and k < 0.9:
+                    cmd = ["advance", "%d/%d" % (gap.numerator, gap.denominator)]
+                elif not live():
+                    cmd = ["load", rng.sample(CC.TOPICS, rng.randrange(0, 3))]
+                if cmd is not None:
+                    cmds.append(cmd)
+                    run.run(cmd)
+                    continue
             # a broker client closed by a refresh whose connection has not reported closed yet: close now, often
             refresh_close_pending = (not run.closed and any(getattr(bc, "_dDown", None) is not None and not bc._dDown.called for bc in sim.bcs))
             if not run.closed and i > 2 and (r < p_close or (refresh_close_pending and r < 0.35)):
                 cmd = ["close"]
+            elif run.closed and focus == "c20" and r < (0.25 if sim.held() else 0.08):
+                cmd = ["close"]  # close() again: returns the pending close Deferred
+            elif focus in ("c11", "c20") and sim.sync_refuse_left == 0 and r > 0.97:
+                cmd = ["sync_refuse", rng.choice([1, 1, 2, 3, 50])]
             elif r < p_close + p_cancel and live():
                 cmd = ["cancel", rng.choice(live())]
-            elif r < p_close + p_cancel + p_adv:
+            elif r < p_close + p_cancel + (0.25 if (run.closed and focus == "c20") else p_adv):
                 gap = next_timer_gap(sim)
                 choice = rng.random()
                 if gap is not None and choice < 0.5:
@@ -305,7 +359,7 @@ def generate(rng, focus="c07", nsteps=None, prefix=None, cfg=None):
                 cmd = ["advance", "%d/%d" % (dt.numerator, dt.denominator)]
             elif sim.held() and rng.random() < (0.25 if not run.closed else 0.5):
                 cmd = ["notify", rng.randrange(len(sim.held()))]
-            elif pend and rng.random() < 0.75:
+            elif pend and rng.random() < (0.4 if beyond == "reentrant" else 0.75):
                 cmd = ["accept" if rng.random() < 0.85 else "refuse", rng.randrange(len(pend))]
             elif outst and rng.random() < 0.8:
                 j = rng.randrange(len(outst))
@@ -337,7 +391,7 @@ def generate(rng, focus="c07", nsteps=None, prefix=None, cfg=None):
                     cmd = ["load", asked]
                 elif k < 0.75:
                     api = rng.choice(APIS)
-                    expect = not (api == "produce" and rng.random() < 0.15)
+                    expect = not (api == "produce" and rng.random() < (0.6 if beyond == "reentrant" else 0.15))
                     cmd = ["send", api, gen_keys(rng, cluster), rng.random() < 0.6, expect, None]
                 elif k < 0.87:
                     cmd = ["send", rng.choice(GROUP_APIS), gen_keys(rng, cluster), rng.random() < 0.6, True, rng.choice(CC.GROUPS)]
@@ -349,6 +403,10 @@ def generate(rng, focus="c07", nsteps=None, prefix=None, cfg=None):
                     cmd = ["ltp", rng.sample(CC.TOPICS, rng.randrange(1, 3))]
                 else:
                     cmd = ["rtopics", rng.sample(CC.TOPICS, rng.randrange(1, 3))]
+            if beyond == "reentrant" and not run.closed and cmd[0] in ("send", "load", "cload", "srtc") and rng.random() < 0.3:
+                # close() will be called synchronously from this operation's callback
+                cmds.append(["arm_close"])
+                run.run(["arm_close"])
             cmds.append(cmd)
             run.run(cmd)
     except Exception:
